@@ -146,6 +146,12 @@ Definition minP (ins : list stream) : res Q :=
   end.
 
 (* ------------------------------------------------------------------ material part, one property package *)
+(* PhaseIndexer: a phase is found under its own name or under its other-case variant *)
+Definition swapcase (p : phase) : phase :=
+  match p with 1%nat => 4%nat | 4%nat => 1%nat | 2%nat => 5%nat | 5%nat => 2%nat | _ => p end.
+Definition mem (p : phase) (l : list phase) : bool := existsb (Nat.eqb p) l.
+Definition target_phase (ps : list phase) (p : phase) : phase := if mem p ps then p else swapcase p.
+
 (* set_main_phase: the receiver takes the inlets' phase when all of them are single-phase with one phase *)
 Definition common_phase (ins : list stream) : option phase :=
   match ins with
@@ -155,17 +161,19 @@ Definition common_phase (ins : list stream) : option phase :=
   | [] => None
   end.
 Definition all_rows (ins : list stream) : list vec := flat_map (fun s => map snd (pm s)) ins.
-Definition rows_of_phase (p : phase) (ins : list stream) : list vec :=
-  flat_map (fun s => map snd (filter (fun pv => (fst pv =? p)%nat) (pm s))) ins.
+(* rows of the inlets that land in row [p] of a receiver with phases [ps]: an inlet phase the receiver lacks goes to
+   its other-case variant ('l' <-> 'L', 's' <-> 'S') *)
+Definition rows_of_phase (ps : list phase) (p : phase) (ins : list stream) : list vec :=
+  flat_map (fun s => map snd (filter (fun pv => (target_phase ps (fst pv) =? p)%nat) (pm s))) ins.
 Definition phases_of (ins : list stream) : list phase := flat_map phases ins.
 
 (* ChemicalIndexer.mix_from / MaterialIndexer.mix_from; [ins] are the inlets as they are NOW (the receiver
    included when it is among them: SparseVector.mix_from accounts for it).  An inlet phase the
-   multi-phase receiver lacks raises KeyError on the current tree (C01's subject; not exercised here). *)
+   multi-phase receiver lacks in either case raises KeyError on the current tree (C01's subject; not exercised here). *)
 Definition imol_mix (self : stream) (ins : list stream) : res stream :=
   if multi self then
-    if forallb (has_phase self) (phases_of ins) then
-      Ok (mkS true (map (fun pv => (fst pv, vsum (length (snd pv)) (rows_of_phase (fst pv) ins))) (pm self))
+    if forallb (fun p => mem (target_phase (phases self) p) (phases self)) (phases_of ins) then
+      Ok (mkS true (map (fun pv => (fst pv, vsum (length (snd pv)) (rows_of_phase (phases self) (fst pv) ins))) (pm self))
               (sT self) (sP self))
     else Err EKey
   else
@@ -179,15 +187,20 @@ Definition copy_like (self other : stream) (same : bool) : res stream :=
     else if multi other then
       if list_eqb Nat.eqb (phases self) (phases other) then Ok (mkS true (pm other) (sT other) (sP other))
       else Err EOther                      (* compatible_with / _expand_phases paths: not modelled *)
-    else if has_phase self (phase1 other) then
-      Ok (mkS true (map (fun pv => (fst pv, if (fst pv =? phase1 other)%nat then row1 other
+    else if mem (target_phase (phases self) (phase1 other)) (phases self) then
+      Ok (mkS true (map (fun pv => (fst pv, if (fst pv =? target_phase (phases self) (phase1 other))%nat then row1 other
                                              else vzero (length (snd pv)))) (pm self))
               (sT other) (sP other))
     else Err EOther                        (* _expand_phases path: not modelled *)
   else if multi other then
     match pm other with
     | [pv] => Ok (mkS false [pv] (sT self) (sP self))     (* one-phase MultiStream: returns before T, P are copied *)
-    | _ => Ok (mkS true (pm other) (sT other) (sP other)) (* self.phases = other.phases; copy rows; copy T, P *)
+    | _ =>
+        (* self.phases = other.phases (to_material_indexer raises when neither the stream's phase nor its other-case
+           variant is among them); copy rows; copy T, P *)
+        if mem (target_phase (phases other) (phase1 self)) (phases other)
+        then Ok (mkS true (pm other) (sT other) (sP other))
+        else Err EUndefPhase
     end
   else if same then Ok self
   else Ok (mkS false (pm other) (sT other) (sP other)).
@@ -202,7 +215,7 @@ Fixpoint sub_phase (m : pmol) (p : phase) (v : vec) : res pmol :=
 Fixpoint sub_rows (m : pmol) (o : pmol) : res pmol :=
   match o with
   | [] => Ok m
-  | pv :: t => if row_any (snd pv) then do m' <- sub_phase m (fst pv) (snd pv); sub_rows m' t
+  | pv :: t => if row_any (snd pv) then do m' <- sub_phase m (target_phase (map fst m) (fst pv)) (snd pv); sub_rows m' t
                else sub_rows m t
   end.
 Definition imol_sep (self other : stream) : res stream :=
@@ -211,7 +224,7 @@ Definition imol_sep (self other : stream) : res stream :=
       if list_eqb Nat.eqb (phases self) (phases other) then
         Ok (mkS true (map2 (fun a b => (fst a, vsub (snd a) (snd b))) (pm self) (pm other)) (sT self) (sP self))
       else do m <- sub_rows (pm self) (pm other); Ok (mkS true m (sT self) (sP self))
-    else do m <- sub_phase (pm self) (phase1 other) (row1 other); Ok (mkS true m (sT self) (sP self))
+    else do m <- sub_phase (pm self) (target_phase (phases self) (phase1 other)) (row1 other); Ok (mkS true m (sT self) (sP self))
   else Ok (mkS false [(phase1 self, vsub (row1 self) (mol_sum other))] (sT self) (sP self)).
 
 (* ------------------------------------------------------------------ phases setter (used by the fallback of mix_from) *)
@@ -230,10 +243,6 @@ Definition phase_str (s : stream) : list phase :=
     (if group_nonempty s 4%nat 1%nat then [4%nat] else []) ++
     (if group_nonempty s 5%nat 2%nat then [5%nat] else [])
   else [phase1 s].
-Definition swapcase (p : phase) : phase :=
-  match p with 1%nat => 4%nat | 4%nat => 1%nat | 2%nat => 5%nat | 5%nat => 2%nat | _ => p end.
-Definition mem (p : phase) (l : list phase) : bool := existsb (Nat.eqb p) l.
-Definition target_phase (ps : list phase) (p : phase) : phase := if mem p ps then p else swapcase p.
 Definition set_phases (s : stream) (chars : list phase) : res stream :=
   let ps := phase_set chars in
   match ps with
@@ -288,8 +297,8 @@ Definition mix_from (O : oracles) (st : store) (r : nat) (others : list inlet) (
       do P <- minP ins;
       let st1 := upd st r (set_P self P) in                        (* self.P = P = min([i.P for i in streams]) *)
       do self1 <- sget st1 r;
-      do ins1 <- sget_all st1 streams;
-      do self2 <- imol_mix self1 ins1;                             (* self._imol.mix_from([i._imol for i in streams]) *)
+      do ins1 <- sget_all st1 streams;                             (* imols = [i._imol.copy() if i is self else i._imol ...] *)
+      do self2 <- imol_mix self1 ins1;                             (* self._imol.mix_from(imols) *)
       let st2 := upd st1 r self2 in
       match setH O self2 H with                                    (* try: self.H = H *)
       | (s', None) => Ok (upd st2 r s')
@@ -298,8 +307,8 @@ Definition mix_from (O : oracles) (st : store) (r : nat) (others : list inlet) (
           do chars <- others_phase_str st3 others;
           do s4 <- set_phases s3 (phase_str s3 ++ chars);          (* self.phases = self.phase + ''.join(...) *)
           let st4 := upd st3 r s4 in
-          do ins4 <- sget_all st4 streams;
-          do s5 <- imol_mix s4 ins4;                               (* self._imol.mix_from(...) *)
+          do s5 <- imol_mix s4 ins1;                               (* self._imol.mix_from(imols): the inlets' flows do not
+                                                                      change in between and the receiver's are its copy *)
           match setH O s5 H with                                   (* self.H = H *)
           | (s', None) => Ok (upd st4 r s')
           | (_, Some e) => Err e
